@@ -54,7 +54,9 @@ func isPrivateRef(ip net.IP) bool {
 	return b[0]&0xfe == 0xfc
 }
 
-func mkDoc(list []int, syms []sym, rdns bool) *result.Results {
+// mkDoc: two runs with the listed hops; cleanFirst puts a run in front whose hops are all public or unanswered (the
+// gateway that is private in the other runs stayed silent in the run that completed first).
+func mkDoc(list []int, syms []sym, rdns bool, cleanFirst ...bool) *result.Results {
 	run := result.TracerouteRun{Source: result.TracerouteSource{IPAddress: net.IP{192, 0, 2, 1}}, Destination: result.TracerouteDestination{IPAddress: net.IP{203, 0, 113, 9}}}
 	for i, k := range list {
 		h := &result.TracerouteHop{TTL: i + 3}
@@ -71,7 +73,13 @@ func mkDoc(list []int, syms []sym, rdns bool) *result.Results {
 		}
 		run.Hops = append(run.Hops, h)
 	}
-	return &result.Results{Traceroute: result.Traceroute{Runs: []result.TracerouteRun{run, run2(run)}}}
+	doc := &result.Results{Traceroute: result.Traceroute{Runs: []result.TracerouteRun{run, run2(run)}}}
+	if len(cleanFirst) > 0 && cleanFirst[0] {
+		clean := result.TracerouteRun{Source: run.Source, Destination: run.Destination}
+		clean.Hops = []*result.TracerouteHop{{TTL: 3}, {TTL: 4, IPAddress: net.IP{198, 51, 100, 99}, RTT: 2.5, Reachable: true}, {TTL: 5, IPAddress: net.IP{203, 0, 113, 9}, RTT: 3.5, Reachable: true, IsDest: true}}
+		doc.Traceroute.Runs = append([]result.TracerouteRun{clean}, doc.Traceroute.Runs...)
+	}
+	return doc
 }
 
 func run2(r result.TracerouteRun) result.TracerouteRun {
@@ -299,7 +307,7 @@ var FW = &proto.RTFamily{ID: "C17", Gen: genWire, SecondEvery: 2}
 
 func init() {
 	FW.Check = checkWire
-	nChunks := func(tier string) int { return (len(docLists(tier))*2 + chunkSize - 1) / chunkSize }
+	nChunks := func(tier string) int { return (len(docLists(tier))*4 + chunkSize - 1) / chunkSize }
 	count := func(tier string) int { return nChunks(tier) + FW.Count(tier) }
 	run := func(tier string, idx int, r *core.ScnResult) {
 		nc := nChunks(tier)
@@ -310,9 +318,9 @@ func init() {
 		syms := symbols()
 		dl := docLists(tier)
 		r.Nontrivial = true
-		for i := idx * chunkSize; i < (idx+1)*chunkSize && i < len(dl)*2; i++ {
-			list, rdns := dl[i/2], i%2 == 1
-			before := mkDoc(list, syms, rdns)
+		for i := idx * chunkSize; i < (idx+1)*chunkSize && i < len(dl)*4; i++ {
+			list, rdns, cleanFirst := dl[i/4], i%2 == 1, (i/2)%2 == 1
+			before := mkDoc(list, syms, rdns, cleanFirst)
 			after := clone(before)
 			after.RemovePrivateHops()
 			r.Evals++
@@ -333,7 +341,7 @@ func init() {
 				if strings.Contains(d, "16-byte") || strings.Contains(strings.Join(names, " "), "16-byte") && !strings.Contains(d, "4-byte") {
 					form = "16-byte-or-v6"
 				}
-				r.Fail(core.Failure{Key: "C17 library/" + k + "/" + form, What: d + " ; hops: " + strings.Join(names, " "), Scenario: core.JSON(map[string]any{"hops": list, "rdns": rdns})})
+				r.Fail(core.Failure{Key: "C17 library/" + k + "/" + form, What: d + " ; hops: " + strings.Join(names, " "), Scenario: core.JSON(map[string]any{"hops": list, "rdns": rdns, "clean_first": cleanFirst})})
 			}
 			if i%4099 == 0 {
 				b, _ := json.Marshal(after)
@@ -345,11 +353,12 @@ func init() {
 		var w struct {
 			Hops []int `json:"hops"`
 			RDNS bool  `json:"rdns"`
+			CF   bool  `json:"clean_first"`
 		}
 		json.Unmarshal(scn, &w)
 		if w.Hops != nil {
 			syms := symbols()
-			before := mkDoc(w.Hops, syms, w.RDNS)
+			before := mkDoc(w.Hops, syms, w.RDNS, w.CF)
 			after := clone(before)
 			after.RemovePrivateHops()
 			k, d := checkRedacted(before, after)
